@@ -14,8 +14,8 @@ RULE = ("seeded gen_coords runs over generated topologies (1-3 molecule types: s
         "(schedule signature, event-log digest)")
 ASSUMPTIONS = wa.ASSUMPTIONS
 REAL_VS_STUB = wa.REAL_VS_STUB
-PROBES = wa.PROBES + ["cwd_with_decoy_includes", "earlier_call_same_topology_paths", "user_grid", "start_option", "coords_supplied", "density_box", "build_file", "include_in_ifdef_else", "resid_restart_inside_molecule"]
-PROFILE = {}
+PROBES = wa.PROBES + ["cwd_with_decoy_includes", "earlier_call_same_topology_paths", "user_grid", "start_option", "coords_supplied", "density_box", "build_file", "include_in_ifdef_else", "resid_restart_inside_molecule", "pdb_input_without_box_record"]
+PROFILE = {"p_pdb": 0.45, "p_pdb_nobox": 0.6}
 
 
 def n_runs(tier):
@@ -69,6 +69,8 @@ def _tag(job, res):
         p["start_option"] = 1
     if job.get("resid_restart"):
         p["resid_restart_inside_molecule"] = 1
+    if job.get("pdb_no_box"):
+        p["pdb_input_without_box_record"] = 1
     if job["spec"].get("cond_include"):
         p["include_in_ifdef_else"] = 1
     if job.get("coord_text") is not None:
